@@ -481,7 +481,7 @@ pub fn main(args: Args) -> i32 {
     let start_t = std::time::Instant::now();
     install_quiet_panic_hook();
     let acc = Acc::new();
-    let opts = |d| gen::Opts { depth: d, max_programs: u64::MAX, multi_template: false, loop_controls: true };
+    let opts = |d| gen::Opts { depth: d, max_programs: u64::MAX, multi_template: false, loop_controls: true, extra_leaves: true };
     if let Some(p) = &args.replay {
         let doc = load_replay(p);
         let j = &doc["replay"];
